@@ -1,4 +1,4 @@
-"""C13 — spans and positions faithfully locate every tree node in the input (LR part + positions).
+"""C13 — spans and positions faithfully locate every tree node in the input (LR trees, GLR forest trees, positions).
 
 (T) Properties/C13.v: position_after_ok (line/column bookkeeping is exact for every byte string and every
     split into slices), pos_ok reflection, spans checker meaning.
@@ -78,6 +78,49 @@ def run(rep, tier, seed):
             i = sorted(e["extra"])[0]
             samples.append(dict(shape=r.case.meta["shape"], grammar=r.case.grammar, input=texts[i],
                                 real=r.results.get(("LR", i), "")[:300]))
+    # ---- GLR half: every tree of every forest the real GLR parser returns on the same grammars and inputs is judged by
+    # the same verified checker spans_ok_b (the statement speaks of "every tree of a GLR forest")
+    gcases = []
+    for tag, r, texts in items:
+        gcases.append(Case("G" + tag, r.case.grammar, [t if len(t.encode()) <= 40 else "" for t in texts], algo="GLR", table="LALR_RN", run="GLR",
+                           flags=dict(r.case.flags, ps=0, pse=0, match=0, partial=0), meta=dict(tag=tag)))
+    gres = run_cases(gcases, "c13g")
+    gjobs = []
+    for gr, (tag, r, texts) in zip(gres, items):
+        if gr.status != "OK" or gr.dump is None:
+            continue
+        for i, text in enumerate(texts):
+            if len(text.encode()) > 40:
+                continue
+            out = gr.results.get(("GLR", i), "")
+            if not out.startswith("FOREST"):
+                continue
+            parts = out.partition(" || SPPF ")[0].split(" | ")[1:]
+            for tr in parts[:3]:
+                if tr != "NONE":
+                    gjobs.append((gr, i, text, tr))
+    n_glr_trees = 0
+    nfiles = max(1, min(NCPU * 2, len(gjobs) // 20 + 1))
+    files = []
+    for fi in range(nfiles):
+        body = [BC.BHEADER]
+        for (gr, i, text, tr) in gjobs[fi::nfiles]:
+            body.append("Eval vm_compute in spans_ok_b %s (%s)." % (BC.gl_bytes(text.encode()), BC.gl_rtree(parse_sexp(tr))))
+        files.append(("c13g_%d" % fi, "\n".join(body) + "\n"))
+    for fi, (ok, out) in enumerate(coq_eval_many(files)):
+        chunk = gjobs[fi::nfiles]
+        ans = parse_bools(out) if ok else []
+        if len(ans) != len(chunk):
+            if chunk:
+                rep.violation("coq-eval", "Coq evaluation of the GLR span jobs failed", dict(err=out[-1500:]), found_input=False)
+            continue
+        for (gr, i, text, tr), b in zip(chunk, ans):
+            n_glr_trees += 1
+            if b != [True]:
+                rep.violation("glr-spans", "a tree of the forest returned by the real GLR parser violates the span/position "
+                              "statement (spans_ok_b)", dict(grammar=gr.case.grammar, algo="GLR", table="LALR_RN",
+                                                             flags=gr.case.flags, input=text, real=tr))
+    n_trees_checked += n_glr_trees
     pt = rep.theorems or {}
     nthm = len(pt.get("theorems", []))
     rep.coverage = dict(
@@ -91,9 +134,10 @@ def run(rep, tier, seed):
              "Layout rules (whitespace, line comments, nested comments); inputs: rendered sentences/non-sentences with "
              "random whitespace (space, tab, CR/LF, NBSP, U+3000), garbage byte strings; non-trivial = inputs accepted "
              "by the real parser (their trees are span-checked)",
-        trees_span_checked=n_trees_checked, inputs_meeting_mt_ok_b=n_mtok, inputs_not_meeting_mt_ok_b=n_mtbad, skipped_non_prefix_match=n_skipped, stats=stats, samples=samples)
+        trees_span_checked=n_trees_checked, glr_forest_trees_span_checked=n_glr_trees, inputs_meeting_mt_ok_b=n_mtok, inputs_not_meeting_mt_ok_b=n_mtbad, skipped_non_prefix_match=n_skipped, stats=stats, samples=samples)
     rep.assumptions = ["recognizers return a prefix of their argument (measured per input; violated inputs skipped)",
-                       "GLR half of C13 is covered by C03/C07's runs"]
+                       "GLR: the first three trees of every forest (inputs up to 40 bytes) are span-checked; C03/C07 compare "
+                       "forests with the oracle / with the LR tree"]
 
 
 def classify_span_failure(out):
